@@ -44,7 +44,7 @@ META = {
     "rule": "6-22 commands per run over all 16 commands x 16 subtypes (first command of run i is (i>>4)&15, i&15), pulse or held generate, "
             "ready stall patterns, per-command wire faults (lcmd_mismatch, lcmd_crc, ctrl symbols), invalid/ghost-word gaps, other traffic, raw detector-only commands",
 }
-TIERS = {"quick": {"runs": 8000, "wall": 70}, "thorough": {"runs": 100000, "wall": 900}}
+TIERS = {"quick": {"runs": 24000, "wall": 70}, "thorough": {"runs": 100000, "wall": 900}}
 
 
 # ------------------------------------------------------------------------------------------------
